@@ -78,7 +78,7 @@ def gen(rng, i, tier):
     props = rand_props(rng, d)
     pack = {"inside": rng.sample(["a.png", "B.JPG", "c.jpeg", "d.gif", "e.bmp", "f.txt", "z.PNG", "a_png", "thumbsgif", "oldbmp"], rng.choice([0, 0, 1, 2, 4])),
             "beside": rng.sample(["pack.png", "pack.jpg", "pack.bmp", "PACK.PNG", "packx.png", "other.png", "pack-png", "packjpg"], rng.choice([0, 1, 2]))}
-    return {"fs": rng.choice(["native", "mem"]), "dir": c19.enc_tree(d), "props": props, "pack": pack, "pack_spelling": rng.choice([None, None, "sep", "dot", "rel", "relsep"]), "dir_spelling": rng.choice([None, None, "sep"])}
+    return {"fs": rng.choice(["native", "mem"]), "dir": c19.enc_tree(d), "props": props, "pack": pack, "pack_spelling": rng.choice([None, None, "sep", "dot", "rel", "relsep"]), "dir_spelling": rng.choice([None, None, "sep", "noslash"])}
 
 
 def build_tree(c):
@@ -106,8 +106,17 @@ def impl(c):
         res = {"listing": t.listdir(song), "sub": (t.listdir(song + t.sep + "sub") if t.isdir(song + t.sep + "sub") else None),
                "pack_listing": t.listdir(t.root), "beside_listing": t.listdir(t.base)}
         song_sp = song + (t.sep if c.get("dir_spelling") == "sep" else "")       # the simfile directory spelled with a trailing separator
+        if c.get("dir_spelling") == "noslash" and t.kind == "mem":
+            song_sp = song.lstrip("/")                                            # PyFilesystem paths need no leading slash
         a = Assets(song_sp, filesystem=t.fs)
-        first = {k: t.rel(getattr(a, ATTR[k])) for k in KINDS}
+        raw = {k: getattr(a, ATTR[k]) for k in KINDS}
+        # the answer is the directory as the caller spelled it, joined with the entry and normalised: it starts the way the caller's spelling does
+        stem = song_sp.rstrip("/\\") if len(song_sp) > 1 else song_sp
+        res["spelling_kept"] = [k for k, v in raw.items() if v is not None and not v.replace("\\", "/").startswith(stem.replace("\\", "/"))]
+        if c.get("dir_spelling") == "noslash" and t.kind == "mem":
+            _rel = t.rel
+            t.rel = lambda p: _rel(p if p is None or p.startswith("/") else "/" + p)
+        first = {k: t.rel(v) for k, v in raw.items()}
         second = {k: t.rel(getattr(a, ATTR[k])) for k in KINDS}
         res["assets"], res["again"] = first, second
         a2 = SimfileDirectory(song_sp, filesystem=t.fs).assets()
@@ -262,6 +271,8 @@ def oracle(c, o):
     import posixpath
     if "__harness_exc__" in o:
         return "harness/library raised %s (%s)" % (o["__harness_exc__"], o.get("msg"))
+    if o.get("spelling_kept"):
+        return "the %s answer is not the directory as given joined with the entry (normalised): it does not start the way the caller's directory does" % o["spelling_kept"][0]
     for k in KINDS:
         got = o["assets"][k]
         if o["again"][k] != got:
